@@ -1,13 +1,13 @@
 package main
 
 import (
-	"sort"
 	"bytes"
 	"crypto"
 	"crypto/rsa"
 	"crypto/sha256"
 	"crypto/sha512"
 	"fmt"
+	"sort"
 	"strconv"
 	"strings"
 
@@ -377,8 +377,10 @@ func runC01(c *Ctx) {
 		// ---- type 3 ----
 		if i%2 == 0 {
 			origin := r.Bytes([]int{1, 14, 31, 32, 33, 70, 200}[i/2%7])
+			// names are opaque strings: letters of both cases, digits, dots, a trailing dot, spaces, bytes ≥ 0x80 — never a trailing NUL
+			alpha := []byte("abcdefghijklmnopqrstuvwxyzABCDEFGHIJKLMNOPQRSTUVWXYZ0123456789.-_/ \xc3\xa9")
 			for k := range origin {
-				origin[k] = 'a' + origin[k]%26
+				origin[k] = alpha[int(origin[k])%len(alpha)]
 			}
 			e := getC07Env(c.Seed, i%2, []string{"a.example"})
 			kid3 := e.issuer.TokenKeyID()
@@ -801,6 +803,37 @@ func runC02(c *Ctx) {
 		}
 	}
 	c02Scribbled(c, r)
+	// issuer keys of other legal sizes (the token format carries a 256-byte authenticator): whatever finalization returns
+	// without an error verifies under the key and carries the request
+	for _, bits := range []int{3072, 4096, 1024} {
+		if bits == 4096 && !c.Thorough() {
+			continue
+		}
+		out := c.Op(fmt.Sprintf("c03.probe c02.rsa-size %d", bits), func() string {
+			key, err := rsa.GenerateKey(realRand, bits)
+			must(err)
+			iss := type2.NewBasicPublicIssuer(key)
+			ch, nonce := r.Bytes(10), r.Bytes(32)
+			st, err := type2.NewBasicPublicClient().CreateTokenRequest(ch, nonce, iss.TokenKeyID(), iss.TokenKey())
+			if err != nil {
+				return "-"
+			}
+			resp, err := iss.Evaluate(st.Request())
+			if err != nil {
+				return "-"
+			}
+			t, err := st.FinalizeToken(resp)
+			if err != nil {
+				return "-"
+			}
+			if !pssValid(&key.PublicKey, t.AuthenticatorInput(), t.Authenticator) || !bytes.Equal(t.Nonce, nonce) {
+				return fmt.Sprintf("finalization succeeded with a token that does not verify under the %d-bit issuer key (authenticator of %d bytes)", bits, len(t.Authenticator))
+			}
+			return "-"
+		})
+		c.Count(fmt.Sprintf("rsa-size:%d", bits))
+		c.Direct(out == "-", "issuer key size: "+out, map[string]any{"bits": bits, "panic": firstLines(lastPanic, 6)})
+	}
 }
 
 // c02Scribbled: the caller overwrites every argument buffer right after creating the request (a client that reads the
@@ -873,7 +906,9 @@ func c02Scribbled(c *Ctx, r *Rng) {
 				if err != nil {
 					return "honest response rejected"
 				}
-				return check(t, n0, kid0, func(t tokens.Token) bool { return pssValid(env.issuer.TokenKey(), t.AuthenticatorInput(), t.Authenticator) })
+				return check(t, n0, kid0, func(t tokens.Token) bool {
+					return pssValid(env.issuer.TokenKey(), t.AuthenticatorInput(), t.Authenticator)
+				})
 			default:
 				kid := i5.TokenKeyID()
 				kid0 := append([]byte{}, kid...)
